@@ -30,13 +30,13 @@ for h, s in fixes:
     rows.append(f"| `{h}` | {esc(s[4:].strip())} | {props} | {esc(' / '.join(whats))} |")
 repairs = '\n'.join(rows)
 why = {
-    'C01': 'design-level: hooks are dispatched by a separate goroutine; a barrier in Close would deadlock when Close is called from inside a hook',
-    'C08': 'needs a handshake timeout for redials (new configuration surface: how long a broker may take to answer a ConnectRequest is a deployment decision)',
+    'C01.ackhook:missing-at-close/reported-later=true/dev=true': 'design-level: hooks are dispatched by a separate goroutine; a barrier in Close would deadlock when Close is called from inside a hook',
+    'C01.ackhook:ack-burst/results-beyond-1024-queued-dropped': 'design-level: the wire connection never blocks on a stream (one slow stream must not stall the dispatch of the others, C07/C08), so a bounded queue drops; the repair is a flow-control decision (unbounded queue, or back-pressure with its own isolation argument), not a patch',
 }
 rows = ['| property | signature | what fails | why not repaired |', '|---|---|---|---|']
 for e in entries:
     if e['status'] == 'known':
-        rows.append(f"| {e['property']} | `{esc(e['sig'])}` | {esc(e['what'])} | {why.get(e['property'], '')} |")
+        rows.append(f"| {e['property']} | `{esc(e['sig'])}` | {esc(e['what'])} | {why.get(e['sig'], '')} |")
 known = '\n'.join(rows)
 det = ''
 rp = f'{V}/mutants/results.json'
